@@ -25,7 +25,7 @@ def grid_case(draw):
     if draw(st.integers(0, 4)) == 0:
         ul["dt"] = draw(fl(1e-3, 0.5))
     dt = ul["dt"]
-    kind = draw(st.sampled_from(["integral", "integral", "fractional", "product", "tiny"]))
+    kind = draw(st.sampled_from(["integral", "integral", "fractional", "product", "tiny"] * 3 + ["zero"]))
     k = draw(st.integers(1, 60))
     if kind == "integral":
         maturity = k * dt  # float product: the ratio lands within an ulp of k, on either side
@@ -33,6 +33,13 @@ def grid_case(draw):
     elif kind == "product":
         maturity = k / round(1 / dt) if round(1 / dt) > 0 else k * dt  # e.g. 20/250 written the usual way
         label = "integral-as-quotient"
+    elif kind == "zero":
+        # a contract expiring at once: one time point.  (RoughBergomiStock cannot simulate a single point: known
+        # finding K4 of C11, excluded here by construction.)
+        maturity, k, label = 0.0, 0, "zero"
+        if ul["type"] == "RoughBergomiStock":
+            ul["type"] = "BrownianStock"
+            ul["params"] = {}
     elif kind == "tiny":
         # just above / just below an integer ratio, but far outside rounding distance
         maturity = (k - 1 + draw(st.sampled_from([1e-3, 1e-5, 1e-7, 1 - 1e-5, 1 - 1e-7]))) * dt
@@ -40,12 +47,14 @@ def grid_case(draw):
     else:
         maturity = (k - 1 + draw(fl(0.02, 0.98))) * dt
         label = "fractional"
-    if maturity <= 0:
+    if maturity <= 0 and kind != "zero":
         maturity = dt
     deriv = draw(st.sampled_from(OPTIONS + ["EuropeanForwardStartOption", "VarianceSwap", "Spread"]))
     ul2 = None
     if deriv == "Spread":
         ul2 = draw(primary_spec(types=STOCKS, dtype=ul["dtype"], cost=False, default_params=True, dts=DTS))
+    if kind == "zero" and ul2 is not None and ul2["type"] == "RoughBergomiStock":
+        ul2["type"], ul2["params"] = "BrownianStock", {}
     return {"ul": ul, "ul2": ul2, "maturity": maturity, "ratio_kind": label, "k": k, "deriv": deriv,
             "call": draw(st.booleans()), "strike": draw(st.sampled_from([1.0, 0.9, 1.1])),
             "n_paths": draw(st.integers(1, 4)), "sim_seed": draw(seed_s)}
@@ -77,6 +86,13 @@ def make_spread():
             return torch.nn.functional.relu(self.ul(0).spot[:, -1] - self.ul(1).spot[:, -1])
 
     return Spread
+
+
+class TwoColumns(torch.nn.Module):
+    """Parameter-free model for two hedging instruments: (time to maturity, 2*spot+1)."""
+
+    def forward(self, input):
+        return torch.stack([input[..., 0], 2.0 * input[..., 1] + 1.0], dim=-1)
 
 
 def check_grid(case, ctx):
@@ -144,6 +160,19 @@ def check_grid(case, ctx):
             with ctx.sut("C13/compute_hedge"):
                 out = hedger.compute_hedge(deriv)
             ctx.check(tuple(out.shape) == (case["n_paths"], 1, Tn), "C13/hedge-grid", f"hedge shape {tuple(out.shape)} for T={Tn}")
+            # two hedging instruments: entry [n, h, t] of the hedge is what the model returns for instrument h from
+            # the features at grid point t (the last column repeats the one before)
+            hedger2 = Hedger(TwoColumns(), ["time_to_maturity", "underlier_spot"])
+            with torch.no_grad():
+                with ctx.sut("C13/compute_hedge"):
+                    out2 = hedger2.compute_hedge(deriv, hedge=[ul, ul])
+            if ctx.check(tuple(out2.shape) == (case["n_paths"], 2, Tn), "C13/hedge-grid", f"hedge shape {tuple(out2.shape)} for T={Tn}, H=2"):
+                w0 = full.clone()
+                w1 = 2.0 * ul.spot + 1.0
+                w0[:, -1], w1[:, -1] = w0[:, -2], w1[:, -2]
+                ctx.check(float((out2[:, 0] - w0).abs().max()) <= tol and bool(((out2[:, 1] - w1).abs() <= 8 * eps * w1.abs()).all()),
+                          "C13/hedge-grid", "with two hedging instruments, hedge[:, h, t] is not the model output for instrument h at grid point t",
+                          got=out2[0, :, :3], want=torch.stack([w0[0, :3], w1[0, :3]]))
     if case["deriv"] == "EuropeanOption":
         S = ul.spot[:, -1]
         want = torch.relu(S - case["strike"]) if case["call"] else torch.relu(case["strike"] - S)
